@@ -584,8 +584,13 @@ class RegionsSelector(Model):
                 # If there's no transform for a label, return np.nan
                 result = [np.full(inputs[0].shape, self._undefined_transform_value, dtype=float)
                           for i in range(self.n_outputs)]
+            if self.n_outputs == 1 and not isinstance(result, (list, tuple)):
+                # a transform with a single output returns a bare array
+                result = (result,)
             for j in range(self.n_outputs):
                 outputs[j][ind] = result[j]
+        if self.n_outputs == 1:
+            return outputs[0]
         return outputs
 
     @property
